@@ -252,8 +252,8 @@ macro_rules | `(tactic| sleaf) => `(tactic| exact createDerived_safe)
 
 /-! ### the arithmetic routines: the in-place edits go to fresh lists only -/
 
-theorem matchLoop_safe {n : Nat} {db : Db} (es : List (Sym × Ref)) (hes : FreshRefs n es)
-    (found : List (Sym × Sym)) (v : Val) : Safe n (matchLoop db es found v) (fun _ => True) := by
+theorem matchLoop_safe {n : Nat} {db : Db} {d : Bool} (es : List (Sym × Ref)) (hes : FreshRefs n es)
+    (found : List (Sym × Sym)) (v : Val) : Safe n (matchLoop db d es found v) (fun _ => True) := by
   induction es generalizing found v with
   | nil => unfold matchLoop; sauto
   | cons e es ih =>
